@@ -370,7 +370,7 @@ func init() {
 			pf.Conc = []int{1, 1, 2, 3}
 			pf.Producers, pf.Adds = [2]int{1, 4}, [2]int{2, 9}
 			pf.PrioPct = 90
-			pf.BatchPct, pf.BatchMax = 15, 5
+			pf.BatchPct, pf.BatchMax = 15, pick(r, []int{5, 5, 5, 16, 40})
 			pf.GatedPct, pf.DelayPct = pick(r, []int{0, 50}), 20
 			pf.Cancellers, pf.CancelOps = [2]int{0, 1}, [2]int{1, 2}
 			pf.Cancel = []wop{{opPurge, 2}, {opCloseJob, 3}}
@@ -435,6 +435,30 @@ func judgeC04W(j *judgeCtx) {
 		}
 	}
 	j.checkEntryOrder("C04.d")
+	// C04.f: the items of one AddAll reach the queue in slice order — "accepted first"
+	// inside a batch is the item order (all items on a FIFO queue, equal priorities on a
+	// priority queue)
+	for _, b := range wd.batches {
+		if b == nil {
+			continue
+		}
+		lastOf := map[int]*Sub{}
+		for _, x := range b.subs {
+			s := wd.subs[x]
+			if s.Enq == 0 {
+				continue
+			}
+			k := 0
+			if prio {
+				k = s.Prio
+			}
+			if l := lastOf[k]; l != nil && s.Enq < l.Enq {
+				j.add("C04.f", s.Enq, "batch %d: item %d (priority %d) reached the queue at %d, before item %d of the same priority at %d, which precedes it in the batch", b.idx, s.N, s.Prio, s.Enq, l.N, l.Enq)
+				return
+			}
+			lastOf[k] = s
+		}
+	}
 	// C04.e: at every gated quiescence every dequeued, non-cancelled job has started
 	for _, c := range j.r.calls {
 		if c.K != opSettle || c.Phase != 0 {
